@@ -162,6 +162,10 @@ impl std::fmt::Display for LicenseParagraph {
 }
 
 fn deserialize_copyrights(text: &str) -> Result<Vec<String>, String> {
+    // An empty list is written as the empty string (see `serialize_copyrights`).
+    if text.is_empty() {
+        return Ok(vec![]);
+    }
     Ok(text.split('\n').map(ToString::to_string).collect())
 }
 
